@@ -196,8 +196,9 @@ pub fn label_truth(t: &Truth, acc: &mut Acc) -> bool {
                 acc.label("kind:dyn-array");
                 acc.label_if(*prefolded, "kind:dyn-array-prefolded");
             }
-            Kind::Packed { fields, .. } => {
+            Kind::Packed { fields, whole, .. } => {
                 acc.label("kind:packed");
+                acc.label_if(*whole != 0 && v.write, "kind:packed-one-store");
                 nontrivial |= fields.len() >= 3;
             }
         }
